@@ -464,6 +464,16 @@ def cold_jobs():
     ex, ey = enc(*no), enc(*pw2)
     jobs.append({'modules': COLD_MODULES, 'fresh': False, 'jobs': [[x, y, x, z], [y, x, z, y]], 'k': 1})
     jobs.append({'modules': COLD_MODULES, 'fresh': False, 'jobs': [[ex, ey, x], [ey, ex, y]], 'k': 1})
+    # while another thread saves, measures and loads a file: messages with float and negative times (legal everywhere but in
+    # a file) are built, copied, encoded and decoded as ever
+    from ..coldstart import file_activity, FILE_MODULES, msg_want
+    w = lambda t, a, tm: msg_want(t, {k: v for k, v in a.items() if k != 'time'}, time=tm)          # noqa: E731
+    mine = [{'fn': 'ctor', 'type': 'note_on', 'attrs': {'channel': 1, 'note': 2, 'velocity': 3, 'time': 0.5},
+             'want': w('note_on', {'channel': 1, 'note': 2, 'velocity': 3}, 0.5)},
+            {'fn': 'copy', 'type': 'pitchwheel', 'attrs': {'pitch': -3, 'time': -2}, 'want': w('pitchwheel', {'channel': 0, 'pitch': -3}, -2)},
+            {'fn': 'from_dict', 'type': 'sysex', 'attrs': {'data': [1, 2], 'time': 1e300}, 'want': w('sysex', {'data': [1, 2]}, 1e300)},
+            x, ex]
+    jobs.append({'modules': FILE_MODULES + COLD_MODULES, 'fresh': False, 'jobs': [file_activity(), mine], 'k': 1})
     return jobs
 
 
